@@ -388,9 +388,8 @@ func run(c Case) ev.Verdict {
 
 	for i, r := range results {
 		want := c.expected(i)
-		if r.Input != cmds[i] {
-			return ev.Fail("response %d has input %q, want %q", i, r.Input, cmds[i])
-		}
+		// (what the response records as its input is not part of the statement: the device's line
+		// log below is what "the device receives exactly each command" is judged by)
 
 		if r.Result != want {
 			if os.Getenv("DBG_CASE") != "" {
